@@ -245,6 +245,24 @@ func (e *env) probeAll(c *flowh.Caches, ct content) []string {
 	return out
 }
 
+// wellTyped: does the document decode, strictly, into the cache's own document type? (The
+// reference uses the exported types of the package under test as a schema only.) A document
+// that does not must be rejected as a whole - nothing of it may be loaded.
+func (e *env) wellTyped(data []byte) bool {
+	if e.v9 {
+		var d struct {
+			Cache   []*struct{ Templates map[string]netflow9.Data }
+			ShardNo int
+		}
+		return json.Unmarshal(data, &d) == nil
+	}
+	var d struct {
+		Cache   []*struct{ Templates map[string]ipfix.Data }
+		ShardNo int
+	}
+	return json.Unmarshal(data, &d) == nil
+}
+
 func subset(a, b []string) (bool, string) {
 	set := map[string]bool{}
 	for _, x := range b {
@@ -277,6 +295,11 @@ func wfile(name string, b []byte) string {
 func (e *env) checkLoad(c *mck.Ctx, sigp string, data []byte, saved [][]string, what func() interface{}) {
 	p := wfile("cache.json", data)
 	lc := e.load(p)
+	if saved == nil && !e.wellTyped(data) {
+		// an ill-typed document (a number that does not fit its field, a string where an object
+		// belongs ...) has no meaning: whatever was "saved" in it is nothing
+		saved = [][]string{{}}
+	}
 	if saved != nil {
 		ents, err := e.entries(lc)
 		if err != nil {
@@ -356,6 +379,17 @@ func roundtrip(v9 bool, tier string) mck.Space {
 			if !strings.Contains(pa[i], "[[") && len(ct.tpls) > 0 {
 				c.Violation(proto(v9)+":roundtrip:probe-vacuous", pa[i], what())
 				return
+			}
+		}
+		// a smaller cache saved over the file of a larger one (same path) must load back as the smaller one
+		if idx > 0 {
+			big := cs[len(cs)-1]
+			pb := filepath.Join(tmpDirGet(), "shrink.json")
+			e.dump(e.build(big), pb)
+			e.dump(live, pb)
+			cb, errb := e.entries(e.load(pb))
+			if errb != nil || strings.Join(cb, "\n") != strings.Join(a, "\n") {
+				c.Violation(proto(v9)+":roundtrip:overwrite-of-longer-file", fmt.Sprintf("saved %d templates over a file that held %d: loaded %d", len(a), len(big.tpls), len(cb)), what())
 			}
 		}
 		// second generation: dump the loaded cache again, must be identical content
